@@ -17,6 +17,7 @@ package props
 import (
 	"encoding/json"
 	"fmt"
+	"math"
 	"net/url"
 	"reflect"
 	"strings"
@@ -41,13 +42,37 @@ type c10Case struct {
 	Bytes     string         `json:"bytes,omitempty"`
 	Spec      *sstruct.Spec  `json:"spec,omitempty"`
 	BaseURI   string         `json:"base_uri,omitempty"`
-	Loader    string         `json:"loader,omitempty"` // nil | error | wrong | self | docs
+	Loader    string         `json:"loader,omitempty"` // nil | error | wrong | self | docs | nilnil
 	Defaults  bool           `json:"validate_defaults,omitempty"`
 	T         *tgen.TD       `json:"type,omitempty"`
 	Ignore    bool           `json:"ignore,omitempty"`
 	U         *ugen.Universe `json:"universe,omitempty"`
 	Instances []*jv.V        `json:"instances,omitempty"`
 	Choices   [][]int        `json:"choices,omitempty"`
+	// Special: a Go float no JSON text denotes (nan | +inf | -inf | nan32), validated on its own
+	// and inside slices and maps. There is no right verdict for it; the call has to return.
+	Special string `json:"special,omitempty"`
+}
+
+func specialInstances(kind string) []any {
+	var f any
+	switch kind {
+	case "nan":
+		f = math.NaN()
+	case "+inf":
+		f = math.Inf(1)
+	case "-inf":
+		f = math.Inf(-1)
+	case "nan32":
+		f = float32(math.NaN())
+	default:
+		return nil
+	}
+	out := []any{f, []any{1.0, f, f}, map[string]any{"a": f, "b": []any{f}}, &f}
+	if g, ok := f.(float64); ok {
+		out = append(out, []float64{g, 1, g}, map[string]float64{"a": g})
+	}
+	return out
 }
 
 // inPlaceCycle is set by the verif-tagged file: it reports whether the resolved graph has a
@@ -139,6 +164,17 @@ func exerciseResolved(rs *jsonschema.Resolved, root *jsonschema.Schema, c *c10Ca
 			return failf("ApplyDefaults panics on instance %s (as %s)\n%s", v.JSON(), repr.Describe(y), f.Msg)
 		}
 	}
+	for _, x := range specialInstances(c.Special) {
+		if f := guard(func() *failure { _ = rs.Validate(x); return nil }); f != nil {
+			return failf("Validate panics on an instance holding the float %s: %#v\n%s", c.Special, x, f.Msg)
+		}
+		if f := guard(func() *failure { _ = rs.ApplyDefaults(&x); return nil }); f != nil {
+			return failf("ApplyDefaults panics on an instance holding the float %s: %#v\n%s", c.Special, x, f.Msg)
+		}
+		if rec != nil {
+			rec.Class("validate:non-finite-float")
+		}
+	}
 	return nil
 }
 
@@ -201,6 +237,8 @@ func runC10(c *c10Case, rec *ev.Recorder) *failure {
 			opts.Loader = func(*url.URL) (*jsonschema.Schema, error) {
 				return &jsonschema.Schema{ID: "http://somewhere.else/else.json", Type: "string", Defs: map[string]*jsonschema.Schema{"a": {Anchor: "a"}}}, nil
 			}
+		case "nilnil":
+			opts.Loader = func(*url.URL) (*jsonschema.Schema, error) { return nil, nil }
 		case "self":
 			// a finite self-referential universe: the root is handed out for the first three URIs only
 			// (relative $id values inside it would otherwise spawn an unbounded sequence of new URIs)
@@ -283,6 +321,15 @@ func runC10(c *c10Case, rec *ev.Recorder) *failure {
 				// unknown URIs fail, which keeps the universe finite
 				return nil, fmt.Errorf("no such document %s", x)
 			}
+		case "nilnil":
+			// every other call hands back no schema and no error
+			opts.Loader = func(x *url.URL) (*jsonschema.Schema, error) {
+				n++
+				if n%2 == 0 {
+					return nil, nil
+				}
+				return base(x)
+			}
 		case "self":
 			calls := 0
 			opts.Loader = func(*url.URL) (*jsonschema.Schema, error) {
@@ -350,6 +397,8 @@ var hostileSnippets = []string{
 	`{"properties":{"a":null}}`, `{"items":[null]}`, `{"type":"object","type":"string"}`, `{"\u0000":1}`, `{"minContains":1.5}`, `{"maxItems":"3"}`,
 	`{"uniqueItems":true}`, `{"items":{"uniqueItems":true}}`, `{"const":[[1,2],[1,2]]}`, `{"enum":[[1],[1,2],{"a":[1]},null]}`, `{"const":{"a":[1,2]}}`,
 	`{"additionalProperties":{"uniqueItems":true},"uniqueItems":true}`, `{"contains":{"const":[1,2]},"uniqueItems":true}`,
+	`{"minimum":1,"$ref":"#/minimum/type"}`, `{"maxLength":1,"allOf":[{"$ref":"#/maxLength/items"}]}`, `{"const":{"properties":{}},"allOf":[{"$ref":"#/const/properties"}]}`,
+	`{"default":{"not":{}},"allOf":[{"$ref":"#/default/not"}]}`, `{"type":["string"],"allOf":[{"$ref":"#/type/0"}]}`, `{"title":"x","allOf":[{"$ref":"#/title/0"}]}`,
 	`{"if":false,"then":false}`, `{"unevaluatedItems":false,"prefixItems":[],"contains":{}}`, `{"$defs":{"a":{"$ref":"#/$defs/a"}},"$ref":"#/$defs/a"}`,
 }
 
@@ -378,6 +427,9 @@ func genC10(t *rapid.T) *c10Case {
 			c.Instances = append(c.Instances, v)
 			c.Choices = append(c.Choices, l.Log)
 		}
+	}
+	if n(6, "special") == 0 {
+		c.Special = rapid.SampledFrom([]string{"nan", "+inf", "-inf", "nan32"}).Draw(t, "specialkind")
 	}
 	switch n(12, "target") {
 	case 11:
@@ -470,6 +522,35 @@ func genC10(t *rapid.T) *c10Case {
 				m.K = rapid.SampledFrom([]string{"$ref", "$dynamicRef", "$id", "$anchor", "items", "type", "properties", "dependencies", "$schema", "default"}).Draw(t, "confkey")
 			}
 		}
+		if n(4, "ptrwalk") == 0 {
+			// a $ref whose pointer walks to an arbitrary location of the document — below numbers, strings,
+			// const/default/enum values, type lists — optionally one segment further
+			ptr := "/$defs/d"
+			cur := doc
+			for steps := 0; steps < 6; steps++ {
+				if cur.K == jv.Obj && len(cur.O) > 0 && n(5, "walkstop") > 0 {
+					m := cur.O[n(len(cur.O), "walkmember")]
+					ptr += "/" + refmodel.EscapePtr(m.K)
+					cur = m.V
+				} else if cur.K == jv.Arr && len(cur.A) > 0 && n(5, "walkstop") > 0 {
+					i := n(len(cur.A), "walkindex")
+					ptr += fmt.Sprintf("/%d", i)
+					cur = cur.A[i]
+				} else {
+					break
+				}
+			}
+			if n(2, "walkextra") == 0 {
+				ptr += "/" + rapid.SampledFrom([]string{"type", "0", "properties", "-", "items", "not", "", "minimum", "const"}).Draw(t, "walkextraseg")
+			}
+			w := jv.ObjV()
+			if sv := doc.Get("$schema"); doc.K == jv.Obj && sv != nil {
+				w.Set("$schema", sv.Clone())
+			}
+			w.Set("allOf", jv.ArrV(jv.ObjV(jv.Member{K: "$ref", V: jv.StrV("#" + ptr)})))
+			w.Set("$defs", jv.ObjV(jv.Member{K: "d", V: doc}))
+			doc = w
+		}
 		c.Bytes = doc.JSON()
 		if n(8, "truncate") == 0 && len(c.Bytes) > 2 {
 			c.Bytes = c.Bytes[:1+n(len(c.Bytes)-1, "cut")]
@@ -484,7 +565,7 @@ func genC10(t *rapid.T) *c10Case {
 		// and Validate/ApplyDefaults are reached with arbitrary instances)
 		c.Spec = sstruct.Gen(t, sstruct.Opts{MaxDepth: 1 + n(2, "depth"), Wild: n(2, "wild") == 0, Density: 1 + n(3, "density")})
 		c.BaseURI = rapid.SampledFrom([]string{"", "", "http://b.test/root.json", "http://b.test/root.json#frag", "::garbage", "relative/path.json", "urn:x:y", "%zz"}).Draw(t, "base")
-		c.Loader = rapid.SampledFrom([]string{"nil", "error", "wrong", "self"}).Draw(t, "loader")
+		c.Loader = rapid.SampledFrom([]string{"nil", "error", "wrong", "self", "nilnil"}).Draw(t, "loader")
 		c.Defaults = n(3, "vd") == 0
 		addInstances(nil)
 	case 6, 7:
@@ -498,7 +579,7 @@ func genC10(t *rapid.T) *c10Case {
 		if n(6, "oddbase") == 0 {
 			c.BaseURI = rapid.SampledFrom([]string{"", "http://b.test/x.json#f", "rel.json", "::"}).Draw(t, "ubase")
 		}
-		c.Loader = rapid.SampledFrom([]string{"docs", "error", "wrong", "self", "nil"}).Draw(t, "uloader")
+		c.Loader = rapid.SampledFrom([]string{"docs", "error", "wrong", "self", "nil", "nilnil"}).Draw(t, "uloader")
 		if n(3, "faults") == 0 {
 			for _, k := range sortedKeys(c.U.Docs) {
 				if n(2, "faulty") == 0 {
